@@ -146,7 +146,7 @@ class CaseObs:
 
 def execute(built, runs, ctl, gate_events=0.0, gate_saves=0.0, write_once=True,
             collab_faults=None, extra_kwargs=None, start_gated=False, on_quiescent=None,
-            collect_stuck=True, sequential=False, charts=None):
+            collect_stuck=True, sequential=False, charts=None, pool_cap=None):
     """runs: list of (tag, val).  Overlapping by default; sequential=True runs them in order."""
     st = setup_engine()
     obs = CaseObs()
@@ -221,8 +221,15 @@ def execute(built, runs, ctl, gate_events=0.0, gate_saves=0.0, write_once=True,
         except Exception:  # noqa: BLE001
             return ('?',)
 
+    def _started(vname, meta):
+        # a job that waited in the queue of a bounded pool is picked up by a worker now
+        if meta and len(meta) == 2:
+            sess.ev('pool_start', meta[0], meta[1], pool=vname)
+
     for ex in (st['tex'], st['pex']):
         ex.on_submit = _meta
+        ex.on_start = _started
+        ex.reset(cap=pool_cap)
 
     loop = vloop.VLoop(ctl)
     sess.loop = loop
